@@ -307,7 +307,7 @@ CLAIMED = {
         technique="Lean 4 proof (permutation invariance of sorting by an identifying key; DFS result independent of neighbour order) + multi-interpreter differential runs",
     ),
     "C11": dict(
-        text="design_output_roundtrips: the same for every module of the package of an F1 design. pipeline_output_roundtrips: whatever the composed pass list (ModulePipe.lean: Orphanage, ConnTypes, SliceResolver, repeats) and export_module return for a module of fragment F1 has the Shape the round-trip theorem asks for, hence is imported without error and exported back identically — the round trip of C11 composed with the elaborator, no hypothesis on the package but where it came from. Proved in Lean for connection targets of any nesting: import (slice.top inclusive -> Python stop, concatenation parts reversed) "
+        text="design_output_roundtrips: the same for every module of the package of an F1 design. resolved_connection_is_a_fixed_point: what SliceResolver returns (resolve_nf: a signal, a proper slice of a signal, or a non-empty concatenation of those) it returns unchanged when it is elaborated again — the re-elaboration half of the round trip. pipeline_output_roundtrips: whatever the composed pass list (ModulePipe.lean: Orphanage, ConnTypes, SliceResolver, repeats) and export_module return for a module of fragment F1 has the Shape the round-trip theorem asks for, hence is imported without error and exported back identically — the round trip of C11 composed with the elaborator, no hypothesis on the package but where it came from. Proved in Lean for connection targets of any nesting: import (slice.top inclusive -> Python stop, concatenation parts reversed) "
         "followed by export is the identity on well-formed targets (target_roundtrip); the table parts of the round trip — prefix maps, "
         "ideal-primitive name maps, pulse-source parameter renaming: importer = inverse of exporter on every entry — are decide-theorems "
         "over tables regenerated from exporter and importer on every run; for whole modules (module_roundtrip over the model of import_module / "
